@@ -808,7 +808,7 @@ func init() {
 						continue
 					}
 					if ce, ok := r.(*ast.CallExpr); ok {
-						if f := Callee(info, ce); f != nil && f.Name() == "nativeLocation" {
+						if f := Callee(info, ce); f != nil && shortName(originOf(f)) == "nativeLocation" {
 							natLoc[lo] = true
 						}
 					}
@@ -1301,7 +1301,7 @@ func init() {
 						}
 						ok := false
 						if ec, isCall := ast.Unparen(el).(*ast.CallExpr); isCall {
-							if f := Callee(info, ec); f != nil && inert[f.Name()] {
+							if f := Callee(info, ec); f != nil && inert[shortName(originOf(f))] {
 								ok = true
 							}
 						}
